@@ -15,6 +15,7 @@ INVARIANT AnswerFitsPosition
 INVARIANT ChannelFresh
 INVARIANT NoEarlyAnswer
 INVARIANT RecordFresh
+INVARIANT AtMostOneStaleLinePerGo
 PROPERTY GoAnswered
 PROPERTY Terminates
 CHECK_DEADLOCK FALSE
